@@ -59,6 +59,16 @@ NEAR = [OWN, '03aabbccdd01', '02abbbccdd01', '02aabcccdd01', '02aabbcddd01', '02
 U16 = [0, 1, 0x00ff, 0x0100, 0x7fff, 0x8000, 0xffff]
 
 
+def wrap_counts(size):
+    """declared counts n for which n * size wraps a 16- or 32-bit product to a small value (n = ceil(k * 2^16 / size), and 2^32)"""
+    out = []
+    for k in range(1, size):
+        n = -(-(k << 16) // size)
+        if n < 65536:
+            out += [n, n + 1]
+    return out
+
+
 def iface_line(i, mac=OWN, mtu=1500, **kw):
     d = dict(flags=0x2000, iftype=6, ipv4='c0a80105', ipv6='fe80000000000000020000fffe000001', speed=1000000, buf0=0)
     d.update(kw)
@@ -152,6 +162,8 @@ def universal(rng, nif=None, length=None, with_glob_changes=True):
     nif = nif or rng.choice([1, 1, 2, 3])
     mtus = [rng.choice([576, 576, 1500, 1492, 577 + rng.randrange(40), 9216]) for _ in range(nif)]
     macs = IFMACS[:nif]
+    if nif >= 2 and rng.random() < 0.15:
+        macs = [macs[0]] * nif           # a bridge and its port, bond slaves, a VLAN sub-interface: distinct contexts, one hardware address
     ops = []
     for i in range(nif):
         kw = {}
@@ -169,6 +181,7 @@ def universal(rng, nif=None, length=None, with_glob_changes=True):
     ops.append(glob_line(host=(''.join('%02x' % rng.randrange(1, 256) for _ in range(hostlen)) or '-'), hostrep=rng.choice(['copied', 'copied', 'full']),
                          icon=rng.choice(BLOBS), fname=rng.choice(BLOBS[:5] + ['4c004c00']), hwid=rng.choice(HWIDS)))
     pool = STATIONS[:4]
+    alloc = list(mtus)             # the receive buffers keep the size of the MTU at creation; `mtus` is the current MTU
     mapper = [None] * nif          # who the generator believes is active (only a bias for choosing senders)
     seen_src = [[] for _ in range(nif)]
     for _ in range(length or rng.randint(8, 70)):
@@ -203,7 +216,7 @@ def universal(rng, nif=None, length=None, with_glob_changes=True):
                 src = rng.choice([rand_mac(rng), own, rng.choice(macs), who, '000d3ad7f1%02x' % rng.randrange(256)])
                 dst = rng.choice([rng.choice(macs), rng.choice(macs), rand_mac(rng), BCAST])
                 descs.append((rng.choice([0, 1, 1, 0, 2]), rng.choice([0, 0, 1, 255]), src, dst))
-            f = emit(who, own, seq, descs, eth_src=eth, declared=rng.choice([None, None, None, nd + 1, 0xffff, 0]), tos=rng.choice([0, 0, 0, 1, 2]))
+            f = emit(who, own, seq, descs, eth_src=eth, declared=rng.choice([None, None, None, nd + 1, 0xffff, 0, 0x8000, rng.choice(wrap_counts(14))]), tos=rng.choice([0, 0, 0, 1, 2]))
             if len(f) // 2 > mtu:
                 f = f[:2 * mtu]
         elif c < 0.58:
@@ -240,6 +253,10 @@ def universal(rng, nif=None, length=None, with_glob_changes=True):
         elif rng.random() < 0.05:
             f = f + '00' * (mtu - len(f) // 2)    # padded to the full buffer
         ops.append('rx %d %s%s' % (i, f or '-', z))
+        if rng.random() < 0.03:
+            # the interface MTU is lowered (or restored) while the responder runs; the receive buffer keeps its size
+            mtus[i] = rng.choice([576, 576, max(576, alloc[i] // 2), alloc[i], alloc[i]])
+            ops.append('set %d mtu=%d' % (i, mtus[i]))
         if rng.random() < 0.04:
             # an attribute of the interface changes between two frames; getters other than address / MTU may start or stop failing
             ops.append('set %d %s' % (i, rng.choice(['speed=%d' % rng.choice([0, 1000000, 0x80000000, 0xffffffff]), 'flags=%d' % rng.choice([0, 0x2000, 0x2800, 0xa000]),
